@@ -8,8 +8,9 @@ import (
 var (
 	opIDs   = []uint64{0, 1, 2, 3, 4, 1<<64 - 1}
 	nums    = []uint64{1, 2, 3, 100}
-	v4s     = []string{"1.0.0.0/8", "2.0.0.0/8", "10.1.1.1/32"}
-	v6s     = []string{"2001:db8::/32", "::1/128", "fe80::/10"}
+	// keys are compared as the strings they are: a prefix with host bits set, or spelled in upper case, is another key
+	v4s     = []string{"1.0.0.0/8", "2.0.0.0/8", "10.1.1.1/32", "1.0.0.1/8"}
+	v6s     = []string{"2001:db8::/32", "::1/128", "fe80::/10", "2001:db8::1/32", "2001:DB8::/32"}
 	nis     = []string{"DEFAULT", "VRF-A", "VRF-B"}
 	serrs   = []string{"", "e1", "e2"}
 	dkinds  = []string{"nhg", "nh", "v4", "v6", "mpls"}
@@ -206,6 +207,10 @@ func genEnt(r *drv.Rng) *Ent {
 	return e
 }
 
+// siblingKey: a different key string that denotes the same network (host bits set, upper case)
+var siblingKey = map[string]string{"1.0.0.0/8": "1.0.0.1/8", "1.0.0.1/8": "1.0.0.0/8", "2001:db8::/32": "2001:db8::1/32",
+	"2001:db8::1/32": "2001:DB8::/32", "2001:DB8::/32": "2001:db8::/32"}
+
 func genGWant(r *drv.Rng, es []*Ent) *Ent {
 	if len(es) == 0 || r.Chance(1, 10) {
 		w := genEnt(r)
@@ -225,7 +230,11 @@ func genGWant(r *drv.Rng, es []*Ent) *Ent {
 	case 0, 1: // another key of the same kind
 		switch w.Kind {
 		case "v4", "v6", "mac":
-			w.S = "9" + w.S
+			if sib, ok := siblingKey[w.S]; ok && r.Chance(1, 2) {
+				w.S = sib // the same network spelled otherwise: another key
+			} else {
+				w.S = "9" + w.S
+			}
 		default:
 			w.N += 1 + uint64(r.Intn(3))
 		}
